@@ -93,10 +93,8 @@ def literal_cases(rnd, n):
     return out
 
 
-def run(chk, tier, seed):
-    rnd = random.Random(seed)
-    n = 2500 if tier == "quick" else 10000
-    r = vf.tlc("XrStr", "XrStr.cfg", "c18", simulate=n, depth=16, seed=seed, timeout=3000)
+def strings_part(chk, n, seed, name="c18"):
+    r = vf.tlc("XrStr", "XrStr.cfg", name, simulate=n, depth=16, seed=seed, timeout=3000)
     cases = r.cases()
     if not cases or "Error:" in r.out:
         raise vf.ToolError("XrStr failed:\n" + r.out[-2500:])
@@ -105,7 +103,7 @@ def run(chk, tier, seed):
     for i, c in enumerate(cases):
         src = "".join("let %s = %s;\n" % (b["n"], coregen.rexpr(fix_terms(b["term"]))) for b in c["binds"])
         jobs.append({"id": "s%d" % i, "src": src, "observe": [b["n"] for b in c["binds"]], "limits": {"calls": 500000}})
-    res = vf.run_jobs(jobs, "c18")
+    res = vf.run_jobs(jobs, name)
     chk.count(len(jobs))
     for j, c in zip(jobs, cases):
         o = res[j["id"]]
@@ -136,6 +134,12 @@ def run(chk, tier, seed):
                               {"kind": "str", "source": j["src"], "binding": b["n"], "expected": exp, "observed": got},
                               finding_key="str:" + b["term"].get("f", "lit"))
                 break
+    return jobs
+
+
+def run(chk, tier, seed):
+    rnd = random.Random(seed)
+    jobs = strings_part(chk, 2500 if tier == "quick" else 10000, seed)
     # literals
     lits = literal_cases(rnd, 400 if tier == "quick" else 5000)
     lj = []
